@@ -7,6 +7,8 @@ import time
 
 import core
 import derived as D
+import extract_c14
+import freshtable
 import members as M
 import treeops as T
 from core import err_class
@@ -420,6 +422,48 @@ def member_sweep(ctx, rng, pairs):
     return traces
 
 
+def shape_across_documents(ctx):
+    """Purity pairs on layers whose box is derived from the canvas of their document (shape layers drawn by a vector mask
+    only): `bbox` read / not read before the layer (or the group holding it) is moved into a document of another size;
+    every later answer must be the same."""
+    from psd_tools import PSDImage
+    from psd_tools.api.layers import Group, ShapeLayer
+    n = 0
+    for name in ("vector-mask.psd", "layers-minimal/shape-layer.psd", "vector-mask2.psd", "note.psd"):
+        f = T.FIX / name
+        if not f.exists():
+            continue
+        for size in ((400, 300), (16, 16)):
+            for wrap in (False, True):
+                answers = []
+                for read in (True, False):
+                    a, b = PSDImage.open(f), PSDImage.new("RGB", size)
+                    shapes = [l for l in a.descendants() if isinstance(l, ShapeLayer)]
+                    if not shapes:
+                        break
+                    l = shapes[0]
+                    mover = Group.group_layers([l], parent=l.parent) if wrap else l
+                    if read:
+                        _ = (l.bbox, mover.bbox, a.bbox)
+                    try:
+                        mover.move_to_group(b)
+                        answers.append((tuple(l.bbox), tuple(mover.bbox), tuple(b.bbox), tuple(l.size)))
+                    except Exception as e:  # noqa
+                        answers.append(("raises", err_class(e)))
+                if len(answers) != 2:
+                    continue
+                n += 1
+                ctx.count(("shape-across", name, size, wrap), nontrivial=True)
+                if answers[0] != answers[1]:
+                    ctx.fail("C14/impure/shape-bbox-across-documents",
+                             "reading bbox before a shape layer is moved into a document of another size changes the later answers",
+                             {"fixture": name, "target_size": list(size), "inside_a_new_group": wrap,
+                              "calls": "shape.bbox [read or not]; move_to_group(PSDImage.new('RGB', size)); shape.bbox, moved.bbox, target.bbox, shape.size"},
+                             observed={"with_read": answers[0], "without_read": answers[1]},
+                             expected="the same answers with and without the earlier read-only call")
+    ctx.extra["shape_across_documents_pairs"] = n
+
+
 def report_stale(ctx, stale):
     """one failure per signature, the history shrunk (ddmin) with the fresh-twin oracle"""
     seen = {}
@@ -454,6 +498,11 @@ def report_stale(ctx, stale):
 
 
 def run(ctx: core.Run):
+    # the invalidation structure of the public mutators, regenerated from the source (Generated/FreshTable.lean):
+    # `current_tree_kept_fresh`, `every_invalidation_needed` and `invalidate_tied` are re-checked against it
+    table = ctx.regenerate(extract_c14.gen_fresh_table) or {"rows": [], "climb": "other"}
+    ctx.extra["fresh_table"] = {"climb": table.get("climb"), "rows": {n: [[_eff_str(e) for e in seg] for seg in segs]
+                                                                     for n, segs in table.get("rows", [])}}
     ctx.prove(["PsdVerif.Props.C14"])
     ctx.trusted_base += T.TRUSTED
     ctx.assumptions += T.ASSUME + [
@@ -462,6 +511,21 @@ def run(ctx: core.Run):
         "`touch` observation",
     ]
     ctx.model_coverage = T.MODEL_COVERAGE
+    ctx.trusted_base += [
+        "harness/extract_c14.py (on the abstract interpreter of extract_c15.py): which object an owner expression names "
+        "(textual substitution of self / parameters / aliases), the summary of a loop over <o>.descendants() / <o> / "
+        "<o>._layers[:] whose body only acts on the loop variable as ONE effect with scope descendants / children, the "
+        "classification of _layers mutations into shrink / relist, the recognition of the climb of Layer._invalidate_bbox",
+        "harness/freshtable.py: the tests of a segment and its owner expressions evaluated on the recorded state before the "
+        "call (eval of the normalised source text over read-only proxies)",
+    ]
+    ctx.assumptions += [
+        "kept_fresh: C09's invariants at the start of every covered block and its side conditions on the raw mutations "
+        "(GuardedHist: what leaves a list was a member; what arrives is detached and does not contain the container; no "
+        "repetition; recursion limit not hit; a rectangle is moved on a plain layer), no exception between a raw mutation "
+        "and the invalidations of its block, no cache filled inside a mutator except by the reads the table lists; writes "
+        "that bypass the public mutators (layer._record…, _layers directly) are outside the claim",
+    ]
     rng = ctx.rng
     traces = []
     phase, t_last = {}, [time.time()]
@@ -542,6 +606,18 @@ def run(ctx: core.Run):
                 probs = D.run(recipe, ops, pixels="auto")
                 if probs:
                     stale.append((recipe, ops, probs, fam))
+    # 3c. the same oracle over the remaining inputs of the clipping relation: blend mode of the base (pass-through or
+    #     not) x compatibility mode, after every edit
+    n_clipin = 0
+    for recipe in [("clips", "RGB", 8), ("nest", "RGB", 8)] + ([] if ctx.quick else [("hid", "RGB", 8), ("clips", "L", 16)]):
+        for fam, ops in D.clip_input_histories(recipe, rng):
+            n_clipin += 1
+            ctx.hist("degenerate_end_states", fam)
+            traces.append(T.run_history(recipe, ops, check_inv=False, check_shadow=False))
+            probs = D.run(recipe, ops, pixels="auto")
+            if probs:
+                stale.append((recipe, ops, probs, fam))
+    ctx.extra["clip_input_histories"] = n_clipin
     n_walk_end = 0
     # (the random walks first, then the visibility x position family, then a seeded sample of the exhaustive family)
     others = traces[i_walks:i_deg] + traces[i_vm:i_walks] + rng.sample(traces[n_corpus:i_vm], min(60, i_vm - n_corpus))
@@ -560,6 +636,9 @@ def run(ctx: core.Run):
     lap("fresh-twin")
     T.compare_with_model(ctx, traces, what="C14")
     lap("model")
+    # every public call as one step of the machine that interprets the regenerated table
+    freshtable.compare(ctx, table, traces)
+    lap("table-machine")
     T.coverage(ctx, traces)
     T.report(ctx, traces, props=("C14",))
     lap("report")
@@ -627,6 +706,7 @@ def run(ctx: core.Run):
             if f["signature"] == sig:
                 f["count"] = dct["count"]
     ctx.extra["purity_cases"] = len(pairs)
+    shape_across_documents(ctx)
     lap("purity")
     for t in traces[:n_corpus] + traces[-2:]:
         ctx.sample({"recipe": list(t.world.recipe), "ops": [T.op_str(o) for o in t.ops[:10]], "outs": t.outs[:10]})
@@ -665,6 +745,25 @@ def run(ctx: core.Run):
 
 
 NOTES = [
+    "proved (Props/C14.lean, table part): invalidate_tied, kept_fresh / kept_wellformed (ANY table with tableOk, any history "
+    "of segment executions: objects named, outcomes of tests and new values of the mutated inputs adversarial), "
+    "current_tree_kept_fresh (tableOk of the regenerated Generated/FreshTable.lean by decide), kept_fresh_now, "
+    "answers_fresh_now; necessity: every_invalidation_needed (every row of the current table), "
+    "climb_stopping_at_empty_goes_stale, climb_below_document_goes_stale, children_only_reset_goes_stale (nesting depth "
+    "three), target_side_only_move_goes_stale, conditional_invalidation_rejected, direct_store_rejected, "
+    "read_between_rejected; non-vacuity: nested_good, allRead_good, the GuardedHist example",
+    "the table speaks about the boxes cached on containers (_bbox of groups, artboards and the document) and the dirty "
+    "flag; the clipping relation has its own table (C15, Generated/ClipCurrent.lean); ShapeLayer._bbox, mask / effects "
+    "views and memoised answers outside _bbox are not in it (searched only)",
+    "search widened with the table work: (a) purity pairs on shape layers whose box is derived from the canvas (bbox read / "
+    "not read before the layer - alone or inside a new group - is moved into a document of another size): found and "
+    "ad8f9e5 repairs ShapeLayer._bbox surviving the adoption by another document; (b) the fresh-twin oracle after every "
+    "edit of histories over the two inputs of the clipping relation the edit vocabulary lacked: blend mode of the base of a "
+    "clip run (pass-through -> normal -> multiply -> pass-through) x compatibility mode of the document, in both orders "
+    "(the twin is opened in the same compatibility mode)",
+    "tableOk is sufficient, not necessary: it accepts the four block shapes the current code uses, in source order; a "
+    "rewrite that invalidates correctly in another order is reported as a broken tie (VIOLATION without failing input "
+    "unless the search finds one) and the shapes have to be extended",
     "proved (Props/C14.lean): fresh_init, fresh_step (every operation; guard of the inserting operations; recursion limit "
     "not hit), fresh_history, answers_fresh_history, observe_pure (SameObs now includes the tagged-block key list of every "
     "record), observe_keeps_blocks, observations_pure (any sequence of read-only calls), getter_writes_nothing, "
@@ -700,6 +799,14 @@ NOTES = [
     "document that was EMPTIED is rendered from that stored image, so there an earlier save() shows through (known finding "
     "C14/impure/emptied-document-shows-stored-merged-image)",
 ]
+
+
+def _eff_str(e):
+    if e[0] == "mutate":
+        return "mutate %s %s %s (%s)%s" % (e[1], e[2], e[3], e[4], " if " + " and ".join(e[5]) if e[5] else "")
+    if e[0] == "other":
+        return "other " + e[1]
+    return " ".join(str(x) for x in e[:-1]) + (" if " + " and ".join(e[-1]) if e[-1] else "")
 
 
 def _short(v):
